@@ -280,7 +280,8 @@ Prealloc(w, ev) ==
                       !.status = [h \in w.issued \cup hs |-> IF h \in hs THEN "live" ELSE w.status[h]],
                       !.merged = [h \in w.issued \cup hs |-> IF h \in hs THEN TRUE ELSE w.merged[h]]]
   IN [w |-> [w1 EXCEPT !.peak = Max(w.peak, Cardinality(NotDead(w)) + ev.n)],
-      f |-> IF dup THEN {F("C01", "handle not fresh", ev.hs)} ELSE {}]
+      f |-> (IF dup THEN {F("C01", "handle not fresh", ev.hs)} ELSE {})
+            \cup (IF ~ev.ok THEN {F("C02", "batch deletion of entities that are all alive failed", ev.n)} ELSE {})]
 
 Delete(w, ev) ==
   LET ok == ~DeadOrUnknown(w, ev.h) IN
@@ -436,16 +437,21 @@ WOp(w, ev) ==
             LET n == IF ev.n < 0 \/ ev.n > Len(mem) THEN Len(mem) ELSE ev.n
                 taken == SubSeq(mem, 1, n)
                 exp == [i \in 1..n |-> <<taken[i][1], w.comp[s][taken[i]]>>]
+                \* (ev.cnt: the draining join consumed by count() - nothing is handed out, the values are destroyed)
+                counted == Has(ev, "cnt")
                 RECURSIVE Rm(_, _)
                 Rm(ww, i) == IF i > n THEN ww
-                             ELSE LET r == DoRemove(ww, s, taken[i]) IN Rm(GiveBack(r.w, s, r.res, "harness"), i + 1)
-            IN [w |-> Rm(w, 1), f |-> flag(ev.items # exp, "drained items", exp)]
+                             ELSE LET r == DoRemove(ww, s, taken[i]) IN Rm(GiveBack(r.w, s, r.res, IF counted THEN "library" ELSE "harness"), i + 1)
+            IN [w |-> Rm(w, 1), f |-> IF counted THEN flag(ev.cnt # n, "number of drained items (count())", n)
+                                      ELSE flag(ev.items # exp, "drained items", exp)]
        [] ev.k = "clear" ->
             LET all == DOMAIN w.comp[s]
                 gone == {w.comp[s][h][1] : h \in all}
             IN [w |-> [w EXCEPT !.comp[s] = <<>>, !.led = LedSetAll(w.led, gone, "destroyed"),
                                  !.zdes = IF w.zst[s] THEN w.zdes + Cardinality(all) ELSE w.zdes],
                 f |-> {}]
+       [] ev.k = "newreader" ->   \* a reader registered now receives what happens from now on
+            [w |-> [w EXCEPT !.evq[s] = <<>>], f |-> {}]
        [] ev.k = "count" ->
             \* (mask bits that survived an interrupted operation - w.resid - may still be counted)
             LET c == Cardinality(DOMAIN w.comp[s])
